@@ -19,7 +19,9 @@ RULE = (
     "established for ALL histories at that size. (b) Hypothesis rule-based state machine through TermEncoder.encode_iri / "
     "encode_literal / encode_namespace_declaration - single terms and whole statements of 2..4 IRIs under one begin_statement(), "
     "where an under-sized table must be refused, never mis-encoded - feeding the rows into a real Decoder, names 8..32, prefixes and datatypes "
-    "0..8, alphabets size+2. (c) long Hypothesis-drawn walks (up to 3000 uses) on sizes 150 / 4000 / 4096. Oracle after "
+    "0..8, alphabets size+2. (c) long Hypothesis-drawn walks (up to 3000 uses) on sizes 150 / 4000 / 4096. (d) whole streams "
+    "written with one table of 8/9, 4095, 4096, 4097 and 5000 slots and size+60 distinct keys: every entry slot on the wire "
+    "lies within the size the stream's own options row declares (or the writer refuses the size). Oracle after "
     "every step: the decoded string equals the intended string, every emitted id lies in [0,size], live entries <= size on "
     "both sides, the reader slot of every resident key holds that key. non-trivial = transition out of an evicting state "
     "(a); history with an eviction followed by a hit and a zero form (b,c); distinct by canonical state / case hash."
@@ -456,7 +458,83 @@ def run_longwalk(case, acc=None):
     return viol
 
 
+def declared_cases():
+    """Whole streams: the table sizes the header DECLARES against the ids the writer then uses, at and beyond the format's
+    maximum (4096) as well - what the reader sizes its tables by is the header."""
+    out = []
+    for which in (0, 1, 2):
+        for size in (8, 9, 4095, 4096, 4097, 5000):
+            if which != 0 and size in (8, 9):
+                size -= 6
+            out.append({"kind": "declared", "table": which, "size": size, "extra": 60})
+    return out
+
+
+def run_declared(case, acc=None):
+    from pyjelly.integrations.generic.generic_sink import IRI, Literal, Triple
+    from pyjelly.integrations.generic.serialize import flat_stream_to_frames
+    from pyjelly.options import LookupPreset
+    from pyjelly.serialize.streams import SerializerOptions
+
+    from vlib import wire
+
+    which, size = case["table"], case["size"]
+    sizes = [16, 8, 8]
+    sizes[which] = size
+    n = size + case["extra"]
+    keys = list(range(n)) + list(range(0, n, 7))  # everything once (forces evictions), then revisits
+
+    def stmts():
+        for k in keys:
+            if which == 0:
+                yield Triple(IRI("http://ex.org/n%d" % k), IRI("http://ex.org/p"), Literal("v"))
+            elif which == 1:
+                yield Triple(IRI("http://ns%d.example/x" % k), IRI("http://ex.org/p"), Literal("v"))
+            else:
+                yield Triple(IRI("http://ex.org/s"), IRI("http://ex.org/p"), Literal("v", None, "http://dt.example/t%d" % k))
+
+    try:
+        opts = SerializerOptions(logical_type=1, lookup_preset=LookupPreset(max_names=sizes[0], max_prefixes=sizes[1],
+                                                                            max_datatypes=sizes[2]), frame_size=250)
+        frames = [f.SerializeToString() for f in flat_stream_to_frames(stmts(), opts)]
+    except Exception as exc:  # noqa: BLE001
+        if acc is not None:
+            acc.case(case, False, ["declared_refused_by_writer"])
+        return None  # a writer that refuses a table size it cannot honour is fine
+    declared = None
+    live = [set(), set(), set()]
+    last = [0, 0, 0]
+    names = ("name", "prefix", "datatype")
+    for fi, fb in enumerate(frames):
+        for ri, rb in enumerate(wire.split_frame_raw(fb)[0]):
+            row = wire.dec_row(rb)
+            if row[0] == "options":
+                declared = [row[1].get("max_name_table_size", 0), row[1].get("max_prefix_table_size", 0),
+                            row[1].get("max_datatype_table_size", 0)]
+                continue
+            if declared is None:
+                return Violation("C05:declared:no-options-row", "statement or entry rows before any options row", case)
+            if row[0] in names:
+                t = names.index(row[0])
+                slot = row[1] or last[t] + 1
+                last[t] = slot
+                live[t].add(slot)
+                if not 1 <= slot <= declared[t]:
+                    return Violation(f"C05:declared:{row[0]}-entry-outside-declared-table", f"frame {fi} row {ri}: {row[0]} entry "
+                                     f"assigned to slot {slot}; the header declares {declared[t]} (writer was given {sizes[t]})", case)
+    if acc is not None:
+        acc.case(case, size >= 4095, ["declared_table_%s_%d" % (names[which], size)])
+    if declared is None:
+        return Violation("C05:declared:no-options-row", "no options row written", case)
+    for t in range(3):
+        if len(live[t]) > declared[t]:
+            return Violation(f"C05:declared:{names[t]}-live-entries-exceed-declared", f"{len(live[t])} slots in use, header declares {declared[t]}", case)
+    return None
+
+
 def body(case, acc):
+    if case["kind"] == "declared":
+        return run_declared(case, acc)
     if case["kind"] == "closure":
         err = replay_history(case["rule"], case["size"], case["history"])
         return Violation(f"C05:closure:{case['rule']}", err, case) if err else None
@@ -496,6 +574,13 @@ def run_shard(spec) -> Acc:
     if spec["part"] == "machine":
         machine_shard(spec, acc)
         return acc
+    if spec["part"] == "declared":
+        for case in declared_cases():
+            v = run_declared(case, acc)
+            if v is not None and v.signature not in known:
+                acc.violations.append(v.to_json())
+                break
+        return acc
     hyp_search(walk_case(), body, acc, seed=spec["seed"] * 1000 + spec["shard"], max_examples=spec["n"], known=known)
     return acc
 
@@ -511,4 +596,5 @@ def plan(tier, seed):
         specs.append({"part": "machine", "shard": i, "n": 60 if q else 2000, "steps": 60 if q else 300})
     for i in range(2 if q else 6):
         specs.append({"part": "walk", "shard": 40 + i, "n": 10 if q else 150})
+    specs.append({"part": "declared", "shard": 90})
     return specs
